@@ -668,8 +668,17 @@ func (w *world) stepRetain(st mbt.Step) {
 	deadline := time.Now().Add(wait)
 	a := find()
 	for a == nil {
-		x, err := w.c.Sched().Await(gate.Point(cluster.POpRetain), time.Until(deadline))
+		lim := time.Until(deadline)
+		if len(w.retains) > 0 { // another notification is being delivered: the store's notification goroutines are unordered
+			lim = 300 * time.Millisecond
+		}
+		x, err := w.c.Sched().Await(gate.Point(cluster.POpRetain), lim)
 		if err != nil {
+			if len(w.retains) > 0 {
+				w.res.Driftf("behaviour %d: retention notifications arrive in another order than the model's queue (%s first)", w.bi, w.retains[0].Args[0].(*cluster.Call))
+				w.stop = true
+				return
+			}
 			w.errorf("no retention call [%d] for operator %d arrived (%s)", id, o, tailOf(w.c))
 			return
 		}
